@@ -90,4 +90,30 @@ example : (demoStore.heap 2).map (·.width) = some 10 := by decide +kernel      
 example : (demoStore.heap 3).map (fun h => h.comps.map (·.name)) = some ["zzz"] := by decide +kernel   -- the edited copy
 example : (demoStore.heap 4) = some hdrA := by decide +kernel                      -- the last read: exactly the file's header
 
+/-! ### history independence as one equation -/
+
+/-- the header value a read returns in state `s` (`none`: the read raises) -/
+def readVal (s : Store Header) (file : Bytes) : Option Header :=
+  match (s.exec parseHeader (.read file)).2 with
+  | some r => (s.exec parseHeader (.read file)).1.heap r
+  | none => none
+
+/-- **History independence, as an equation.** After ANY history the value a read returns is the pure decode of its bytes. -/
+theorem read_value_is_decode (hist : List (Op Header)) (file : Bytes) :
+    readVal ((Store.empty : Store Header).run parseHeader hist) file = (parseHeader file).map (·.1) := by
+  have h := read_pure hist file
+  delta readVal
+  simp only at h ⊢
+  split at h
+  · next r hr =>
+    obtain ⟨hd, e, h1, h2, _⟩ := h
+    simp [hr, h1, h2]
+  · next hr => simp [hr, h]
+
+/-- … hence any two histories whatever (first read of the process or not; any mutations in between) give the same result for the same bytes. -/
+theorem read_same_after_any_two_histories (h1 h2 : List (Op Header)) (file : Bytes) :
+    readVal ((Store.empty : Store Header).run parseHeader h1) file = readVal ((Store.empty : Store Header).run parseHeader h2) file := by
+  rw [read_value_is_decode, read_value_is_decode]
+
+example : readVal demoStore fileA = some hdrA := by decide +kernel
 end PoseVerif.Props.C06
